@@ -67,6 +67,16 @@ def import_repo():
         freud.parallel.set_num_threads(1)
     except Exception:  # freud is only needed by C20 / C18; those worlds check again
         pass
+    # stand-ins for the peers that are absent on this image (declared as stubs in the evidence)
+    from . import peers
+    try:
+        peers.install_hoomd()
+        peers.install_voro()
+    except Exception as e:  # noqa: BLE001 - the worlds that need a peer report its absence
+        SHIMS.append(f"peer stubs not installed: {type(e).__name__}: {e}")
+    for s in peers.STUBS:
+        if s not in SHIMS:
+            SHIMS.append(s)
     return PyMatterSim
 
 
